@@ -5,7 +5,7 @@
 set -u
 cd "$(dirname "$0")"
 ./build.sh || exit 2
-BIN=/verif/target/release/simcheck
+BIN="${SIM_TARGET_DIR:-/verif/target}/release/simcheck"
 if [ "${1:-}" = "replay" ]; then
   exec "$BIN" replay "$2"
 fi
